@@ -45,7 +45,13 @@ func verifYield(point string) {
 // that any later use of its old contents shows up as corrupted data.
 func verifPoison(buffer *bytes.Buffer) {
 	b := buffer.Bytes()
-	b = b[:cap(b)]
+	// The contents plus a margin: stale aliases point into what was written;
+	// sweeping the whole capacity of a (possibly huge) buffer is only slow.
+	n := len(b) + 4096
+	if n > cap(b) {
+		n = cap(b)
+	}
+	b = b[:n]
 	for i := range b {
 		b[i] = 0xDB
 	}
